@@ -1779,7 +1779,8 @@ size_t rtosc_scan_arg_val(const char* src,
                 ++buffer_for_strings;
             }
             // "YYYY-" => it's a date
-            else if(src[0] && src[1] && src[2] && src[3] && src[4] == '-')
+            else if(isdigit(src[0]) && isdigit(src[1]) && isdigit(src[2]) &&
+                    isdigit(src[3]) && src[4] == '-')
             {
                 arg->val.t = 0;
 
